@@ -441,6 +441,7 @@ func (vc *VC) lookup(st *hstate, name, sort string) string {
 	case hsBase:
 		t = fmt.Sprintf("%s@%d", name, st.id)
 		vc.emit(fmt.Sprintf("(declare-const %s %s)", t, sort))
+		vc.heapTypeAxiom(name, t)
 	case hsStore:
 		if st.name == name {
 			t = st.term
@@ -451,6 +452,7 @@ func (vc *VC) lookup(st *hstate, name, sort string) string {
 		if st.all || st.names[name] {
 			t = fmt.Sprintf("%s@%d", name, st.id)
 			vc.emit(fmt.Sprintf("(declare-const %s %s)", t, sort))
+			vc.heapTypeAxiom(name, t)
 		} else {
 			t = vc.lookup(st.parent, name, sort)
 		}
@@ -477,6 +479,44 @@ func (vc *VC) lookup(st *hstate, name, sort string) string {
 	}
 	st.cache[name] = t
 	return t
+}
+
+// heapTypeAxiom states that every entry of an unconstrained heap version is a well-typed value of the
+// heap's Go type (ranges of machine integers, well-formed slice headers). Needed for heap reads in
+// specifications; reads in code assume the same facts at each load.
+func (vc *VC) heapTypeAxiom(name, term string) {
+	if vc.qf > 0 {
+		return
+	}
+	d, ok := vc.eng.heapDescs[name]
+	if !ok {
+		return
+	}
+	// only slice headers: integer ranges are cheap to state where needed, but costly as global axioms
+	vt := d.t1
+	if d.kind == "mapval" {
+		vt = d.t2
+	}
+	if _, isSl := vt.Underlying().(*types.Slice); !isSl || d.kind == "elem" {
+		return
+	}
+	switch d.kind {
+	case "field", "ptr":
+		f := vc.typeFacts(sx("select", term, "r"), d.t1, nil)
+		if f != "true" {
+			vc.emit(fmt.Sprintf("(assert (forall ((r Int)) (! %s :pattern ((select %s r)))))", f, term))
+		}
+	case "elem":
+		f := vc.typeFacts(sx("select", sx("select", term, "a"), "i"), d.t1, nil)
+		if f != "true" {
+			vc.emit(fmt.Sprintf("(assert (forall ((a Int) (i Int)) (! %s :pattern ((select (select %s a) i)))))", f, term, ))
+		}
+	case "mapval":
+		f := vc.typeFacts(sx("select", sx("select", term, "m"), "k"), d.t2, nil)
+		if f != "true" {
+			vc.emit(fmt.Sprintf("(assert (forall ((m Int) (k %s)) (! %s :pattern ((select (select %s m) k)))))", vc.sortOf(d.t1), f, term))
+		}
+	}
 }
 
 func (vc *VC) store(st *hstate, name, sort, term string) *hstate {
@@ -589,6 +629,7 @@ type frame struct {
 	cur      *ssa.BasicBlock
 	top      bool
 	callStk  []*ssa.Function
+	iters    map[*ssa.Range]string
 }
 
 type retInfo struct {
